@@ -1,6 +1,7 @@
 // Shared plumbing for all check binaries: argument parsing, case (replay)
 // files, evidence counters, hashing.  No cctz header is included here.
 #pragma once
+#include <time.h>
 #include <algorithm>
 #include <cstdint>
 #include <cstdio>
@@ -288,9 +289,15 @@ struct Reporter {
   std::string latest_path;   // while shrinking: last failing case
   std::string latest_text;
   int stream = 0;
+  time_t first_failure = 0;
+  // Shrinking a failure that depends on the thread schedule wanders (an attempt that happens not to fail counts as
+  // "passes"): a property may give shrinking a budget and let every later attempt pass, which ends the search with
+  // the smallest failing case seen so far.
+  bool shrink_budget_spent(int seconds) const { return first_failure != 0 && time(nullptr) - first_failure > seconds; }
   // Called from inside a property body on failure (possibly many times while
   // the engine shrinks): remembers the most recent failing case.
   void failing(const Case& c, const std::string& why) {
+    if (!first_failure) first_failure = time(nullptr);
     Case cc = c;
     cc.set("property", prop);
     cc.set("why", why);
